@@ -583,6 +583,63 @@ def check_codec(eng, run):
     run.floor("C05.pure text codec call sites in serializers with a configured encoding", n, 8)
 
 
+def check_integrity_and_iterators(eng, run):
+    """(a) an integrity check that is configured is applied to every datagram: the test that guards `compare_digest` reads the
+    configuration only (`checksum is not None`), no property of the input (a length guard lets short forged tokens through);
+    (b) the clients' `iter_received_packets()` hand out resumable iterator objects, not generator functions (a generator is finalised
+    by the first exception that leaves it: after one parse error the iterator would only raise StopIteration);
+    (c) those iterators turn only OSError (time-out, closed connection) into the end of the iteration: a parse error propagates"""
+    b64 = eng.db.module("serializers.wrapper.base64").classes.get("Base64EncoderSerializer")
+    de = b64.methods.get("deserialize") if b64 else None
+    if de is None:
+        raise AnalysisError("anchor vanished: Base64EncoderSerializer.deserialize")
+    guards = [i for i in own_nodes(de.node) if isinstance(i, ast.If) and any(isinstance(c, ast.Call) and "compare_digest" in ast.unparse(c.func) for b in i.body for c in ast.walk(b))]
+    ok = bool(guards)
+    for i in guards:
+        t = i.test
+        while isinstance(t, ast.NamedExpr):
+            t = t.value
+        if isinstance(t, ast.Compare) and isinstance(t.left, ast.NamedExpr):
+            t = ast.Compare(left=t.left.value, ops=t.ops, comparators=t.comparators)
+        plain = isinstance(t, ast.Compare) and len(t.ops) == 1 and isinstance(t.ops[0], ast.IsNot) and isinstance(t.comparators[0], ast.Constant) and t.comparators[0].value is None
+        if not plain:
+            ok = False
+            run.finding("C05.err", de, i, f"the checksum verification is guarded by `{ast.unparse(t)[:80]}`, i.e. by more than 'a checksum is configured': a forged datagram that avoids the extra "
+                        "condition is accepted as a packet instead of being reported as one parse error")
+    run.ob("C05.err", f"{de.short}:checksum-verified-whenever-configured", ok, guards=len(guards))
+    n = 0
+    for modname in ("clients.abc",):
+        m = eng.db.module(modname)
+        for ci in m.classes.values():
+            fn = ci.methods.get("iter_received_packets")
+            if fn is None or isinstance(fn.node, ast.Lambda):
+                continue
+            n += 1
+            gen = fn.is_generator
+            if gen:
+                run.finding("C05.err", fn, fn.node, "iter_received_packets() is a generator function: the first exception that leaves it (a parse error for one malformed datagram) finalises it, "
+                            "and the datagrams behind the malformed one are never delivered through that iterator")
+            run.ob("C05.err", f"{ci.name}.iter_received_packets:resumable-iterator", not gen)
+    it = eng.db.module("clients._iter")
+    for ci in it.classes.values():
+        for fn in ci.methods.values():
+            if fn.name not in ("__next__", "__anext__") or isinstance(fn.node, ast.Lambda):
+                continue
+            n += 1
+            bad = []
+            for t in [x for x in own_nodes(fn.node) if isinstance(x, ast.Try)]:
+                for h in t.handlers:
+                    if any(isinstance(r, ast.Raise) and r.exc is not None and "Stop" in ast.unparse(r.exc) for r in ast.walk(h)):
+                        names = eng.lattice.handler_classes(fn, h.type) or ["<bare>"]
+                        if not all(nm != "<bare>" and eng.lattice.is_sub(nm, "OSError") for nm in names):
+                            bad.append(h)
+            for h in bad[:1]:
+                run.finding("C05.err", fn, h, f"`except {ast.unparse(h.type) if h.type else ''}` ends the iteration for more than OSError: a parse error raised for one malformed datagram is "
+                            "swallowed - it yields neither a packet nor an error, and the loop stops as if the timeout had expired")
+            run.ob("C05.err", f"{ci.name}.{fn.name}:only-OSError-ends-the-iteration", not bad)
+    run.floor("C05.err receive iterators", n, 3)
+
+
 def run(eng, run):
     from sa.anchors import verify as _verify_anchor_names
     _verify_anchor_names(eng, run)
@@ -596,6 +653,7 @@ def run(eng, run):
     run.attempt(check_bufsize, eng, run)
     run.attempt(check_callbacks, eng, run)
     run.attempt(check_codec, eng, run)
+    run.attempt(check_integrity_and_iterators, eng, run)
     from sa.analyses.sharing import check_unbounded_queues
     run.attempt(check_unbounded_queues, eng, run, "C05.drop", lambda m: "datagram" in m or m.endswith(("clients.udp", "clients.async_udp", "servers.async_udp")), 2)
     from sa.analyses.arms import check_dead_arms
